@@ -73,6 +73,39 @@ func httpCampaign(o *hlib.Opts, rn *runner, w *world) {
 			hdr = "Basic " + enc([]byte(user+":"))
 		case 6:
 			hdr = "Basic " + enc([]byte(":"+pass))
+		case 7:
+			// Structural base64 edge cases: missing or wrong padding, a
+			// non-zero trailing bit pattern, other prefixes and separators.
+			full := enc([]byte(user + ":" + pass))
+			switch rng.IntN(8) {
+			case 0:
+				hdr = "Basic " + strings.TrimRight(full, "=")
+			case 1:
+				hdr = "Basic " + full + "="
+			case 2:
+				hdr = "Basic " + full + "===="
+			case 3:
+				hdr = "BASIC " + full
+			case 4:
+				hdr = "Basic  " + full
+			case 5:
+				hdr = "Basic\t" + full
+			case 6:
+				hdr = "Basic" + full
+			default:
+				// "dev1:" + one char: the last quantum is "xx==" or "xxx=";
+				// flip trailing bits that do not belong to any byte.
+				b := []byte(full)
+				if n := len(b); n >= 4 && b[n-1] == '=' {
+					k := n - 2
+					if b[k] == '=' {
+						k = n - 3
+					}
+					const alpha = "ABCDEFGHIJKLMNOPQRSTUVWXYZabcdefghijklmnopqrstuvwxyz0123456789+/"
+					b[k] = alpha[(strings.IndexByte(alpha, b[k])+1)%64]
+				}
+				hdr = "Basic " + string(b)
+			}
 		default:
 			hdr = "Basic " + enc([]byte(user+":"+pass))
 		}
@@ -81,6 +114,56 @@ func httpCampaign(o *hlib.Opts, rn *runner, w *world) {
 		if hdr != "" {
 			hr.Header.Set("Authorization", hdr)
 		}
+		// Decoys: every other place of an HTTP request where an identifier or
+		// credentials could sit is filled with a fixture device's.  None of
+		// them is a channel of the property (Host header, URL host, URL
+		// userinfo, query string, other headers), so none may have any
+		// influence on what the device finder is handed.
+		decoyID := pick(rng, devIDs)
+		decoyPW := pick(rng, rightPasswords)
+		if di := findDev(db, decoyID); di != nil && di.kind == "pw" {
+			decoyPW = di.pw
+		}
+		decoyName := decoyID
+		if len(v.domains) > 0 {
+			decoyName += "." + pick(rng, v.domains)
+		} else {
+			decoyName += ".d.dns.example"
+		}
+		decoys := ""
+		if rng.IntN(2) == 0 {
+			hr.Host = decoyName
+			decoys += "host "
+		}
+		if rng.IntN(3) == 0 {
+			hr.URL.Host = decoyName
+			decoys += "urlhost "
+		}
+		if rng.IntN(3) == 0 {
+			hr.URL.User = url.UserPassword(decoyID, decoyPW)
+			decoys += "urluser "
+		}
+		if rng.IntN(3) == 0 {
+			hr.URL.RawQuery += "&id=" + decoyID + "&device=" + decoyID + "&password=" + url.QueryEscape(decoyPW)
+			decoys += "query "
+		}
+		if rng.IntN(3) == 0 {
+			cred := "Basic " + enc([]byte(decoyID+":"+decoyPW))
+			hr.Header.Set("Proxy-Authorization", cred)
+			hr.Header.Set("X-Authorization", cred)
+			hr.Header.Set("X-Device-Id", decoyID)
+			hr.Header.Set("X-Forwarded-Host", decoyName)
+			hr.Header.Set("Cookie", "device="+decoyID)
+			decoys += "headers "
+		}
+		if rng.IntN(8) == 0 {
+			// No TLS state at all (cleartext HTTP behind a terminator): no
+			// server name.
+			hr.TLS = nil
+			q.sni = ""
+			decoys += "notls "
+		}
+		rn.r.Count("http.decoys." + strings.ReplaceAll(strings.TrimSpace(decoys), " ", "+"))
 		ri := dnsserver.VerifC03AddRequestInfo(hr)
 		// What the transport must have handed over, by the harness's own decoding.
 		q.ui, q.user, q.pass = "-", "", ""
@@ -99,17 +182,24 @@ func httpCampaign(o *hlib.Opts, rn *runner, w *world) {
 		out := serveRI(v, db, q, ri)
 		line := q.line()
 		replay := func() any {
-			return map[string]any{"campaign": "http", "server": string(v.srv.Name), "authorization": hdr,
+			return map[string]any{"campaign": "http", "server": string(v.srv.Name), "authorization": hdr, "decoys": decoys, "decoy_device": decoyID, "decoy_name": decoyName,
 				"ops": append(append(append([]string{}, v.lines...), db.lines...), line), "observed": out.canon()}
 		}
 		if got != want || ri.TLSServerName != q.sni || ri.URL == nil || ri.URL.Path != q.path {
-			rn.r.Violate("doh-request-info-differs-from-http-request", fmt.Sprintf("Authorization %q: finder was handed userinfo %s, header decodes to %s", hdr, got, want), replay())
+			rn.r.Violate("doh-request-info-differs-from-http-request", fmt.Sprintf("Authorization %q, TLS server name %q, path %q: finder was handed userinfo %s (header decodes to %s), server name %q, URL %v", hdr, q.sni, q.path, got, want, ri.TLSServerName, ri.URL), replay())
 		}
 		rn.c.oracle(v, db, q, &out, replay)
 		rn.lines = append(rn.lines, v.lines...)
 		rn.lines = append(rn.lines, db.lines...)
 		rn.pend = append(rn.pend, pending{lineIdx: len(rn.lines), got: out.canon(), ops: replay})
-		rn.lines = append(rn.lines, line)
+		// The model starts from the raw header as well (its own addRequestInfo
+		// and BasicAuth); the oracle above used the harness's decoding.
+		tlsTok := "-"
+		if hr.TLS != nil {
+			tlsTok = hx(hr.TLS.ServerName)
+		}
+		f := strings.Fields(line)
+		rn.lines = append(rn.lines, strings.Join(append([]string{"http", tlsTok, hx(hdr), hx(q.path)}, f[4:]...), " "))
 		kind := strings.SplitN(out.canon(), " ", 2)[0]
 		rn.r.Count("http." + kind)
 		rn.r.Case("http|"+string(v.srv.Name)+"|"+dbKey(db)+"|"+hdr+"|"+line, kind != "none")
